@@ -1,5 +1,6 @@
 import QuicModel.Driver
 import QuicModel.Data.RefBuf
+import QuicModel.Data.SlotBuf
 namespace Quic.Drivers.Reassembler
 open Quic Quic.Data.RefBuf
 
@@ -107,6 +108,89 @@ def stepLine (s : RefBuf) (t : List String) : RefBuf × String :=
 def reassembler : Component :=
   { name := "reassembler", σ := RefBuf, init := init, step := stepLine }
 
-def components : List Component := [reassembler]
+
+/-! ### component `reassembler-slots` (model: `Data.SlotBuf`): the same implementation, observed
+    including chunk boundaries
+
+ops: `w`, `wx`, `skip`, `clear` as above; `pop <w|inf>` = ONE pop_watermarked call;
+`read <w|inf>` = repeated calls as above. Every answer is
+`<ok|err KIND> <bytes> <chunk lengths, comma separated> <len> <report().chunks> <consumed>
+<total_received> <final|none> <writing_complete> <reading_complete> <is_empty>`. -/
+
+open Quic.Data in
+def showSlotState (s : SlotBuf.SlotBuf) : String :=
+  let fin := match s.finalOffset with
+    | some f => toString f
+    | none => "none"
+  let r := SlotBuf.report s
+  s!"{r.1} {r.2} {s.start} {SlotBuf.totalReceivedLen s} {fin} {boolStr (SlotBuf.isWritingComplete s)} {boolStr (SlotBuf.isReadingComplete s)} {boolStr (SlotBuf.isEmpty s)}"
+
+open Quic.Data in
+def slotAnswer (s : SlotBuf.SlotBuf) (status : String) (b : List Nat) (chunks : List Nat) : SlotBuf.SlotBuf × String :=
+  (s, s!"{status} {showBytes b} {natList chunks} {showSlotState s}")
+
+open Quic.Data in
+def slotWrite (s : SlotBuf.SlotBuf) (off : Nat) (data : List Nat) (fin : Bool) : SlotBuf.SlotBuf × String :=
+  match SlotBuf.write s off data fin with
+  | some (.ok s') => slotAnswer s' "ok" [] []
+  | some (.error e) => slotAnswer s s!"err {errStr e}" [] []
+  | none => slotAnswer s "err model-stuck" [] []
+
+open Quic.Data in
+/-- repeated `pop_watermarked(w - got)` until `w` bytes were handed out or a call returns nothing -/
+def slotRead : Nat → SlotBuf.SlotBuf → Option Nat → List Nat → List Nat → SlotBuf.SlotBuf × List Nat × List Nat
+  | 0, s, _, got, cs => (s, got, cs)
+  | fuel + 1, s, w, got, cs =>
+    let w' := w.map (· - got.length)
+    let (s', c) := SlotBuf.readChunk s w'
+    if c.isEmpty then (s', got, cs)
+    else
+      let got := got ++ c
+      let cs := cs ++ [c.length]
+      match w with
+      | some w => if got.length ≥ w then (s', got, cs) else slotRead fuel s' (some w) got cs
+      | none => slotRead fuel s' none got cs
+
+open Quic.Data in
+def slotStepLine (s : SlotBuf.SlotBuf) (t : List String) : SlotBuf.SlotBuf × String :=
+  match t with
+  | ["w", off, n, key, fin] =>
+    match off.toNat?, n.toNat?, key.toNat?, bool? fin with
+    | some off, some n, some key, some fin =>
+      if off ≤ maxOffset ∧ n ≤ 16777216 ∧ key < 18446744073709551616 then slotWrite s off (payload key off n) fin else (s, "bad-op")
+    | _, _, _, _ => (s, "bad-op")
+  | ["wx", off, h, fin] =>
+    match off.toNat?, fromHex? h, bool? fin with
+    | some off, some data, some fin =>
+      if off ≤ maxOffset then slotWrite s off data fin else (s, "bad-op")
+    | _, _, _ => (s, "bad-op")
+  | ["pop", w] =>
+    match watermark? w with
+    | some w =>
+      let (s', c) := SlotBuf.readChunk s w
+      slotAnswer s' "ok" c (if c.isEmpty then [] else [c.length])
+    | none => (s, "bad-op")
+  | ["read", w] =>
+    match watermark? w with
+    | some w =>
+      let (s', got, cs) := slotRead (s.slots.length + 2) s w [] []
+      slotAnswer s' "ok" got cs
+    | none => (s, "bad-op")
+  | ["skip", n] =>
+    match n.toNat? with
+    | some n =>
+      if n ≤ maxOffset then
+        match SlotBuf.skip s n with
+        | .ok s' => slotAnswer s' "ok" [] []
+        | .error e => slotAnswer s s!"err {errStr e}" [] []
+      else (s, "bad-op")
+    | none => (s, "bad-op")
+  | ["clear"] => slotAnswer SlotBuf.init "ok" [] []
+  | _ => (s, "bad-op")
+
+def reassemblerSlots : Component :=
+  { name := "reassembler-slots", σ := Quic.Data.SlotBuf.SlotBuf, init := Quic.Data.SlotBuf.init, step := slotStepLine }
+
+def components : List Component := [reassembler, reassemblerSlots]
 
 end Quic.Drivers.Reassembler
